@@ -84,6 +84,17 @@ Example C18_ex_refused_add_is_not_stored :
   stored_then_buffered (fst (wrun w0 ops)) = [1; 2; 3; 5] /\ w_elems (fst (wrun w0 ops)) = [[5]].
 Proof. split; [repeat constructor|]. split; [|split]; vm_compute; reflexivity. Qed.
 
+(** The sender's slide: acknowledging [k] pieces and refilling keeps the unacknowledged pieces at the
+    front in order and appends the next bytes of the file behind them, within the size. *)
+Theorem C18_remove_then_fill_slides : forall w k, WInv w -> f_mode (w_file w) = FRead -> k <= lenN (w_elems w) ->
+  exists cs full w', wrun w [OpRemove k; OpFill] = (w', [ObsUnit; ObsFill full]) /\
+    w_elems w' = dropN k (w_elems w) ++ cs /\
+    concat cs ++ f_rest (w_file w') = f_rest (w_file w) /\
+    lenN (w_elems w') <= w_size w /\
+    (full = true -> lenN (w_elems w') = w_size w) /\
+    (full = false -> f_rest (w_file w') = []).
+Proof. exact remove_then_fill_slides. Qed.
+
 (** Non-vacuity: the two sequences of the repository's unit tests, and one beyond them. *)
 Example C18_ex_fill_remove_fill :
   let w0 := window_new 2 5 (file_for_read [72; 101; 108; 108; 111; 44; 32; 119; 111; 114; 108; 100; 33]) in
@@ -103,3 +114,4 @@ Print Assumptions C18_remove.
 Print Assumptions C18_empty.
 Print Assumptions C18_adds_are_stored_in_order.
 Print Assumptions C18_adds_then_empty_file.
+Print Assumptions C18_remove_then_fill_slides.
